@@ -75,6 +75,7 @@ func (s *Store) AddMessage(message storage.Message) (id string, err error) {
 		date:    message.Date(),
 		subject: message.Subject(),
 	}
+	var evicted []*Message
 	s.withMailbox(message.Mailbox(), true, func(mb *mbox) {
 		// Generate message ID.
 		mb.last++
@@ -87,14 +88,30 @@ func (s *Store) AddMessage(message storage.Message) (id string, err error) {
 		if s.cap > 0 {
 			// Enforce cap.
 			for len(mb.messages) > s.cap {
-				delete(mb.messages, strconv.Itoa(mb.first))
+				key := strconv.Itoa(mb.first)
+				if old, ok := mb.messages[key]; ok {
+					delete(mb.messages, key)
+					evicted = append(evicted, old)
+				}
 				mb.first++
 			}
 		}
 	})
 	verifhook.Yield("mem.add.visible " + m.mailbox + "/" + id)
+
+	// Messages evicted by the cap leave the size accounting before the new message enters
+	// it, and are announced like any other removal.
+	for _, old := range evicted {
+		s.enforcerRemove(old)
+		s.emitDeleted(old)
+	}
 	s.enforcerDeliver(m)
 	return id, err
+}
+
+// emitDeleted announces the removal of m to extensions.
+func (s *Store) emitDeleted(m *Message) {
+	s.extHost.Events.AfterMessageDeleted.Emit(message.MakeMetadata(m))
 }
 
 // GetMessage gets a mesage.
